@@ -571,7 +571,15 @@ from .. import __version__
 from ..docstrings import document_dump_one, document_load_one
 from ..iodata import IOData
 from ..periodic import num2sym, sym2num
-from ..utils import DumpError, DumpWarning, LineIterator, LoadError, LoadWarning, PrepareDumpError
+from ..utils import (
+    DumpError,
+    DumpWarning,
+    LineIterator,
+    LoadError,
+    LoadWarning,
+    PrepareDumpError,
+    amu,
+)
 
 __all__ = ()
 
@@ -835,9 +843,10 @@ def _parse_topology_keys(mol: dict, lit: LineIterator) -> dict:
         extra_dict["mass_numbers"] = np.array(mol["mass_numbers"])
         extra_dict["masses"] = np.array(mol["masses"])
     elif "masses" in mol:
-        topology_dict["atmasses"] = np.array(mol["masses"])
+        # QCSchema masses are in unified atomic mass units, IOData uses atomic units.
+        topology_dict["atmasses"] = np.array(mol["masses"]) * amu
     elif "mass_numbers" in mol:
-        topology_dict["atmasses"] = np.array(mol["mass_numbers"])
+        topology_dict["atmasses"] = np.array(mol["mass_numbers"]) * amu
     # Load bonds: list of tuple (atom1, atom2, bond_order)
     # Note: The QCSchema spec allows for non-integer bond_orders, these are forced to integers here
     # in accordance with current IOData specification
@@ -1554,7 +1563,7 @@ def _dump_qcschema_molecule(f: TextIO, data: IOData) -> dict:
     molecule_dict["real"] = [bool(atcorenum != 0) for atcorenum in data.atcorenums]
     # "masses" could be overwritten below (for QCSchema passthrough)
     if data.atmasses is not None:
-        molecule_dict["masses"] = data.atmasses.tolist()
+        molecule_dict["masses"] = (data.atmasses / amu).tolist()
     if data.bonds is not None:
         molecule_dict["connectivity"] = [[int(i) for i in bond] for bond in data.bonds]
     if data.g_rot:
